@@ -113,7 +113,7 @@ _BOUND = ('per type of each pair (holder structs: one field at a time in the qui
 
 
 @hx.harness(props=['C07'], targets=_T, items=items, bound='newer sender (B) -> older receiver (A): ' + _BOUND,
-            outside=_OUT, budget=(150, 600))
+            outside=_OUT, budget=(300, 900))
 def new_to_old(i: I8, s: S4, b: B16, strict: bool) -> bool:
     """
     pre: all(len(x) <= NS for x in s)
@@ -129,6 +129,8 @@ def new_to_old(i: I8, s: S4, b: B16, strict: bool) -> bool:
         want, unknown = evolve.view(dt_a, dt_b, sh_b, RENAMES.get(pair, {}))
     except evolve.Incompatible:
         return True
+    except evolve.Inconsistent:
+        return hx.ok(False)
     doc = ss.json_compat_obj_encode(vb, val_b)
     try:
         got = ss.json_compat_obj_decode(va, doc, strict=strict)
@@ -140,7 +142,7 @@ def new_to_old(i: I8, s: S4, b: B16, strict: bool) -> bool:
 
 
 @hx.harness(props=['C07'], targets=_T, items=items, bound='older sender (A) -> newer receiver (B): ' + _BOUND,
-            outside=_OUT, budget=(150, 600))
+            outside=_OUT, budget=(300, 900))
 def old_to_new(i: I8, s: S4, b: B16, strict: bool) -> bool:
     """
     pre: all(len(x) <= NS for x in s)
